@@ -332,8 +332,19 @@ def check(ctx):
     okloop = False
     if d is not None:
         ents = dict_entries(d)
-        LEVEL = ("elem", ("param", "alphas"), 0)
-        okloop = len(ents) == 1 and ents[0][0] == LEVEL and ents[0][2] == ("param", "alphas") and ents[0][1][0] == "call" \
+        AL = ("param", "alphas")
+
+        def _requested(seq):
+            # the levels the caller asked for: the parameter itself, or - when the parameter may be left out - a decision on `alphas is None`
+            # whose other branch is the parameter
+            if seq == AL:
+                return True
+            if seq[0] in ("phi", "ifexp") and seq[1][0] == "cmp" and seq[1][2] == AL and seq[1][3] == NONE:
+                return seq[3] == AL if seq[1][1] in ("is", "==") else seq[2] == AL
+            return False
+        seq = ents[0][2] if len(ents) == 1 else None
+        LEVEL = ents[0][0] if len(ents) == 1 else None
+        okloop = len(ents) == 1 and _requested(seq) and LEVEL[0] == "elem" and LEVEL[1] == seq and ents[0][1][0] == "call" \
             and ents[0][1][1][0] == "attr" and ents[0][1][1][2] == "get_national_summary_estimates" \
             and ents[0][1][2] == (("param", "nat_sum_data_dict"), ("param", "base_to_add"), LEVEL)
     ctx.ob("C08.R6.levels", f"{cf.qualname}|every requested level", okloop, cf.where(),
